@@ -561,6 +561,10 @@ Proof. intros H. unfold track. destruct (Z.leb_spec k 0); [lia | reflexivity]. Q
 Lemma track_nonpos tau m k g : (k <= 0)%Z -> track tau m k g = track_plain tau m g [].
 Proof. intros H. unfold track. destruct (Z.leb_spec k 0); [reflexivity | lia]. Qed.
 
+(** the default of [Shaper(instances_cap=...)] means "no cap" *)
+Lemma default_no_cap tau m g : track tau m dflt_instances_cap g = track_plain tau m g [].
+Proof. apply track_nonpos. unfold dflt_instances_cap. lia. Qed.
+
 (** the memberships the cap keeps, as the Spec states them *)
 Definition kept (tau : str) (sc : scope) (k : nat) (g : graph) (mm : str * str) : bool :=
   mem_str (fst mm) (first_k_instances tau sc k g (snd mm)).
@@ -669,6 +673,11 @@ Proof.
   apply cap_filter_id. intros c. rewrite getc_st0. apply Hbig.
 Qed.
 
+Lemma cap_large_is_default tau m k g : (0 < k)%Z -> tau_ok tau g ->
+  (forall c, List.length (class_subjects tau (scope_of m) g c) <= Z.to_nat k) ->
+  track tau m k g = track tau m dflt_instances_cap g.
+Proof. intros Hk Hok Hbig. apply cap_large_id; [exact Hk | unfold dflt_instances_cap; lia | exact Hok | exact Hbig]. Qed.
+
 (** the two target modes: early stop or not, same result *)
 Lemma cap_stop_irrelevant tau l k g : (0 < k)%Z -> tau_ok tau g ->
   track tau (TClasses l) k g = track_cap tau (TClasses l) (Z.to_nat k) None g [] st0.
@@ -755,7 +764,7 @@ Lemma child_of_one_spec ns p : child_of_one ns p = true <-> direct_child ns p.
 Proof.
   unfold child_of_one, direct_child. destruct (prefixb ns p) eqn:E.
   - apply prefixb_spec in E. destruct E as [r ->]. rewrite slice_from_app.
-    change (Str "/") with ["/"%char]. change (Str "#") with ["#"%char].
+    change c_ns_child_separators with [["/"%char]; ["#"%char]]. cbn [forallb]. rewrite andb_true_r.
     rewrite andb_true_iff, !negb_true_iff. split.
     + intros [H1 H2]. exists r. split; [reflexivity|]. split; intros H; apply contains_char in H; congruence.
     + intros [r' [H [H1 H2]]]. apply app_inv_head in H. subst r'. split.
